@@ -78,6 +78,14 @@ def run(project, chk):
     if I.unknown_calls:
         chk.note(f"callees without a semantics entry were assumed not to raise: {sorted(I.unknown_calls)}")
 
+    # E7: what the parser hands back is always a colour: a None result would make the object invalid *without* an error message
+    chk.rule("E7", "parse_color_to_rgb never returns None (nor a bare parameter that may be None): an input it cannot turn into a colour raises, so that the constructor records a message")
+    pq = "cm_colors.core.color_parser.parse_color_to_rgb"
+    none_ctx = [key for key, (ret, _r) in I.memo.items() if key[0] == pq and "none" in ret]
+    pfi = project.funcs[pq]
+    chk.check(not none_ctx, "E7", pfi.short, "return value", project.loc(pfi.module, pfi.node), "every normal return of the parser is a colour triple",
+              how=f"abstract return types over {sum(1 for k in I.memo if k[0] == pq)} calling context(s) contain no None",
+              message="the parser can return None (e.g. a bare `return background` with no background given): the colour is then invalid with error None -- 'invalid with a non-empty error message' is violated")
     # E1
     seen = set()
     n_escaped = 0
